@@ -946,9 +946,12 @@ where
 		}
 	};
 
+	// Report the outcome and wait until the shutdown watcher has recorded it before the frontend
+	// channel is closed, because callers woken up by the closed channel read the disconnect reason.
+	let _ = close_tx.send(res).await;
+	close_tx.closed().await;
 	from_frontend.close();
 	let _ = sender.close().await;
-	let _ = close_tx.send(res).await;
 }
 
 struct ReadTaskParams<R: TransportReceiverT, S> {
